@@ -10,7 +10,7 @@ import math
 TITLE = 'Scalings are order-preserving, invertible and NaN-blind'
 EXPLORER = 'E1'
 CLAUSES = ['C19.monotone', 'C19.roundtrip', 'C19.minmax_unit', 'C19.min_range', 'C19.step_continuous',
-           'C19.nan_blind', 'C19.all_nan', 'C19.reference']
+           'C19.nan_blind', 'C19.all_nan', 'C19.reference', 'C19.data_rescaled']
 RULE = ('one case per scaling configuration (shift-and-scale: scale x shift; minmax-scale: min_range; '
         'step-scale: every strictly increasing step list of length 0..4 over {1000,8000,14000,20000} x '
         'every scale tuple over {1,100,500}); inside it every array of length 1..L over the value '
@@ -50,6 +50,7 @@ def cases(tier):
         for steps in itertools.combinations(STEP_POOL, k):
             for scales in itertools.product(SCALE_POOL, repeat=k + 1):
                 out.append({'mode': 'step-scale', 'kwargs': {'steps': list(steps), 'scales': list(scales)}, 'L': L - 1})
+    out.append({'mode': 'data_rescaled', 'kwargs': {}, 'L': L})
     return out
 
 
@@ -80,6 +81,8 @@ def run_case(case):
     from ampycloud.plots.tools import get_scaling_kwargs
     from ..digest import obj_digest
     mode, kwargs, L = case['mode'], case['kwargs'], case['L']
+    if mode == 'data_rescaled':
+        return data_rescaled_case(case)
     A = alphabet()
     res = {'n': 0, 'clauses': {}, 'digests': set(), 'violations': []}
     cl = res['clauses']
@@ -202,4 +205,54 @@ def run_case(case):
                 viol('C19.step_continuous', [below, s, s + 1.0], {'f(below)': float(a), 'f(step)': float(b), 'triple': [float(v) for v in c]})
     res['digests'] = sorted(res['digests'])
     res['sample'] = {'case': case, 'executions': res['n']}
+    return res
+
+
+def data_rescaled_case(case):
+    """CeiloChunk.data_rescaled: the dt / height columns are apply_scaling of the chunk's columns (NaN heights stay NaN), every other
+    column and the chunk itself are untouched."""
+    import copy
+    import itertools
+    import warnings
+    import numpy as np
+    from ampycloud import scaler
+    from ampycloud.data import CeiloChunk
+    from .. import scenes
+    from ..digest import frame_digest
+    res = {'n': 0, 'clauses': {'C19.data_rescaled': 0}, 'digests': set(), 'violations': []}
+    menu = [None, [(None, 0)], [(1000.0, 1)], [(1000.0, 1), (9000.0, 2)], [(14000.0, 1)]]
+    modes = [('shift-and-scale', {'scale': 100}), ('minmax-scale', {'min_range': 1000}), ('minmax-scale', {}),
+             ('step-scale', {'steps': [8000, 14000], 'scales': [100, 500, 1000]}), (None, {})]
+    for cells in itertools.product(range(len(menu)), repeat=3):
+        if all(menu[c] is None for c in cells):
+            continue
+        rows = scenes.micro_rows(cells, 1, 3, menu)
+        with warnings.catch_warnings():
+            warnings.simplefilter('ignore')
+            chunk = CeiloChunk(scenes.frame(rows))
+        before = frame_digest(chunk.data)
+        for (hm, hk), (dm, dk) in itertools.product(modes, [('shift-and-scale', {'scale': 180}), (None, {})]):
+            hv = chunk.data['height'].to_numpy(dtype=float)
+            if hm == 'minmax-scale' and not np.all(np.isnan(hv)) \
+                    and max(float(np.nanmax(hv) - np.nanmin(hv)), hk.get('min_range', 0)) < 1e-6:
+                continue            # span below 1e-6: outside the property's domain
+            try:
+                out = chunk.data_rescaled(dt_mode=dm, height_mode=hm, dt_kwargs=copy.deepcopy(dk), height_kwargs=copy.deepcopy(hk))
+                exp_h = scaler.apply_scaling(chunk.data['height'].copy(), hm, **copy.deepcopy(hk)) if hm else chunk.data['height']
+                exp_t = scaler.apply_scaling(chunk.data['dt'].copy(), dm, **copy.deepcopy(dk)) if dm else chunk.data['dt']
+                ok = (np.array_equal(np.asarray(out['height'], dtype=float), np.asarray(exp_h, dtype=float), equal_nan=True)
+                      and np.array_equal(np.asarray(out['dt'], dtype=float), np.asarray(exp_t, dtype=float), equal_nan=True)
+                      and list(out['ceilo']) == list(chunk.data['ceilo']) and list(out['type']) == list(chunk.data['type'])
+                      and np.array_equal(np.isnan(np.asarray(out['height'], dtype=float)), np.isnan(hv))
+                      and frame_digest(chunk.data) == before and out is not chunk.data)
+                detail = None if ok else {'rows': rows, 'height_mode': hm, 'dt_mode': dm, 'got': out[['dt', 'height']].values.tolist()}
+            except Exception as e:
+                detail = {'rows': rows, 'height_mode': hm, 'dt_mode': dm, 'raised': repr(e)[:200]}
+            res['n'] += 1
+            res['clauses']['C19.data_rescaled'] += 1
+            if detail is not None and len(res['violations']) < 10:
+                res['violations'].append({'clause': 'C19.data_rescaled', 'site': 'CeiloChunk.data_rescaled', 'detail': detail})
+            res['digests'].add(f'{hm}|{dm}|{len(rows)}')
+    res['digests'] = sorted(res['digests'])
+    res['sample'] = {'case': 'data_rescaled', 'executions': res['n']}
     return res
